@@ -1,7 +1,7 @@
 (** C05 — operations terminate and leave nothing running, even when cancelled mid-flight.
     PARTIAL: the theorems are about the accounting models of the two joins; real time and real goroutine
     liveness are observed by the correspondence harness. *)
-From GV Require Import Base.Prelude Model.Join Proofs.JoinProofs.
+From GV Require Import Base.Prelude Model.Join Proofs.JoinProofs Model.SseLock Proofs.SseLockProofs.
 Open Scope nat_scope.
 
 Theorem C05_list_join_terminates : forall n limit tr s,
@@ -39,3 +39,25 @@ Example C05_nonvacuous :
   exists s, lrun true (linit 3 1) [LDispatch; LCancel; LDispatch; LFinish; LDispatch] = Some s
             /\ all_returned s = true /\ wait_enabled s = true.
 Proof. eexists. vm_compute. repeat split. Qed.
+
+(** The SSE transport in front of an operation that ends: over every interleaving of the handler and the keep-alive
+    goroutine the handler is never blocked for good - it can take its next step, or the keep-alive (which then holds
+    the lock) can take one and the handler can afterwards - so the request ends. *)
+Theorem C05_sse_handler_never_blocked : forall n tr s,
+  skrun as_written (skinit n) tr = Some s -> handler_finished s = false ->
+  skstep as_written s LHandler <> None \/
+  exists s', skstep as_written s LKeepAlive = Some s' /\ skstep as_written s' LHandler <> None.
+Proof. exact sse_lock_progress_lemma. Qed.
+Print Assumptions C05_sse_handler_never_blocked.
+
+(** Refuted for the variant whose "stream already completed" branch returns without unlocking: the handler's final
+    flush waits for a lock nobody will release, and no step of any kind is enabled any more. *)
+Theorem C05_sse_missing_unlock_refuted :
+  let v := {| v_done_unlocks := false; v_check_under_lock := true; v_events_locked := true |} in
+  match skrun v (skinit 0) [LTick; LHandler; LHandler; LKeepAlive; LKeepAlive] with
+  | Some s => handler_finished s = false /\ sk_k s = KEnd /\ skstep v s LHandler = None /\ skstep v s LKeepAlive = None
+              /\ skstep v s LTick = None /\ skstep v s LCtxDone = None
+  | None => False
+  end.
+Proof. exact no_unlock_deadlock_witness. Qed.
+Print Assumptions C05_sse_missing_unlock_refuted.
